@@ -11,7 +11,7 @@
    A comment statement is only derivable when what follows it is not a block keyword or a block
    terminator: there the parser swallows the comment (exp_token skips comments), see
    C06_comment_node_dropped_before_block in Properties/C06.v (a documented fact: comments are layout for C06). *)
-From GoldV Require Import Base Tokens Lexer AstKinds Tree Strings PComb Grammar Ladder RTComb LadderProofs ExprRT TypeRT.
+From GoldV Require Import Base Tokens Lexer AstKinds Tree Strings PComb Grammar Ladder RTComb LadderProofs ExprRT TypeRT OqlRT.
 From Coq Require Import Lia.
 
 Definition block_first : list ttype := [TIf; TFor; TForEach; TWhile; TLoop; TSwitch; TRepeat].
@@ -228,8 +228,10 @@ Section StmtLevel.
   Let pd := parse_dot_ops (g_expr (gram f)).
   Let pc := parse_compare (g_primary (gram (S f))).
   Let rs := g_stmt (gram f).
-  Hypothesis Hrs : forall ts n more, RS ts n -> follow_ok ts (hd_ty more) -> Parses rs (ts ++ more) more n.
+  Hypothesis Hrs : forall ts n more, RS ts n -> follow_ok ts (hd_ty more) -> jfollow more -> Parses rs (ts ++ more) more n.
   Hypothesis RS_head : forall ts n, RS ts n -> ts <> [] /\ (forall ty, hd_ty ts = Some ty -> In ty stmt_first).
+  (* no statement starts with an OQL join word (outerjoinon ...): a from-item in front of it would take it for a join *)
+  Hypothesis RS_j : forall ts n, RS ts n -> jfollow ts.
 
   Definition blocks : list (P node) :=
     [parse_if_block pe rs; parse_for_block pe rs; parse_foreach_block pe pd pc rs; parse_while_block pe rs;
@@ -284,10 +286,10 @@ Section StmtLevel.
   | SE_some et body ns : tty et = TElse -> Seq RS (Some TEndSwitch) body ns -> SwitchElse (et :: body) (Some (et, ns)).
 
   Inductive Stmt : list tok -> node -> Prop :=
-  | S_assign tl nl op tr nr : GDots (S f) tl nl -> head_in [TIdentifier] tl -> In (tty op) assign_ops ->
+  | S_assign tl nl op tr nr : GDots (S f) tl nl -> head_in [TIdentifier] tl -> jfollow tl -> In (tty op) assign_ops ->
       GExpr (S f) tr nr -> Stmt (tl ++ op :: tr) (mk_binop op nl nr)
-  | S_call ts n : GDots (S f) ts n -> head_in [TIdentifier] ts -> Stmt ts n
-  | S_post ts n op : GDots (S f) ts n -> head_in [TIdentifier] ts -> In (tty op) postfix_types ->
+  | S_call ts n : GDots (S f) ts n -> head_in [TIdentifier] ts -> jfollow ts -> Stmt ts n
+  | S_post ts n op : GDots (S f) ts n -> head_in [TIdentifier] ts -> jfollow ts -> In (tty op) postfix_types ->
       Stmt (ts ++ [op]) (mk_unary_post n op)
   | S_return rt ts n : tty rt = TReturn -> GExpr (S f) ts n -> Stmt (rt :: ts) (mk_return rt n)
   | S_control t : In (tty t) [TExit; TBreak; TContinue] -> Stmt [t] (mk_terminal t)
@@ -326,6 +328,7 @@ Section StmtLevel.
   | S_switch st ets en wts whens elts els e : tty st = TSwitch -> GExpr (S f) ets en -> Whens wts whens ->
       SwitchElse elts els -> tty e = TEndSwitch ->
       Stmt (st :: ets ++ wts ++ elts ++ [e]) (mk_switch st en whens (option_map (fun x => mk_switch_else (fst x) (snd x) e) els) e)
+  | S_oql ts n : OqlStmt (GExpr (S f)) (GDots (S f)) (GExprK (S f) 2) ts n -> Stmt ts n
   | S_if it cts cn k tail pre last e : tty it = TIf -> GExpr (S f) cts cn ->
       IfTail k (mkCB (traw it) (new_range (trange it) (trange it)) (Some cn) []) tail (pre, last, e) ->
       Stmt (it :: cts ++ tail) (mk_if it cn (pre ++ [last]) e).
@@ -360,7 +363,39 @@ Section StmtLevel.
     - eapply K; [exact H|reflexivity|discriminate].
     - eapply K; [exact H|reflexivity|discriminate].
     - eapply K; [exact H|reflexivity|discriminate].
+    - destruct H; (eapply K; [eassumption|reflexivity|discriminate]).
     - eapply K; [exact H|reflexivity|discriminate].
+  Qed.
+
+  Lemma jfollow_app a b : jfollow a -> (hd_tok a = None -> jfollow b) -> jfollow (a ++ b).
+  Proof.
+    unfold jfollow. induction a as [|t a IH]; cbn [app hd_tok]; intros Ha Hb; [apply Hb; reflexivity|].
+    destruct (is_comment t); [apply IH; assumption|exact Ha].
+  Qed.
+
+  Lemma jfollow_kw t r : tty t <> TComment -> tty t <> TIdentifier -> jfollow (t :: r).
+  Proof. apply jfollow_ty. Qed.
+
+  Lemma ident_head_tok tl : head_in [TIdentifier] tl -> hd_tok tl <> None.
+  Proof.
+    intros (t & r & -> & [E|[]]). simpl. unfold is_comment. rewrite <- E. cbn. discriminate.
+  Qed.
+
+  Lemma Stmt_j ts n : Stmt ts n -> jfollow ts.
+  Proof.
+    intro H. destruct H; try assumption;
+      try (match goal with |- jfollow (?t :: _) => apply jfollow_kw; [congruence|congruence] end).
+    - apply jfollow_app; [assumption|]. intro X. exfalso. eapply ident_head_tok; eauto.
+    - apply jfollow_app; [assumption|]. intro X. exfalso. eapply ident_head_tok; eauto.
+    - apply jfollow_kw; intro X; rewrite X in H; simpl in H; intuition discriminate.
+    - unfold jfollow. simpl. unfold is_comment. rewrite H, tt_eqb_refl. exact I.
+    - destruct H; apply jfollow_kw; congruence.
+  Qed.
+
+  Lemma Seq_j h body ns more : Seq RS h body ns -> jfollow more -> jfollow (body ++ more).
+  Proof.
+    intros H Hm. induction H as [|ts n ts' ns Hn Hseq IH Hfo]; [exact Hm|].
+    rewrite <- app_assoc. apply jfollow_app; [apply (RS_j _ _ Hn)|]. intros _. exact IH.
   Qed.
 
   (* head type of a sequence followed by something with head h *)
@@ -381,15 +416,15 @@ Section StmtLevel.
 
   (* a sequence followed by a stop token (or by nothing) is walked by the loops of the combinator library *)
   Lemma Seq_chain (stop : P tok) (stopset : list ttype) h body ns more :
-    Seq RS h body ns -> hd_ty more = h ->
+    Seq RS h body ns -> hd_ty more = h -> jfollow more ->
     (forall i, nostart stopset i -> Fails stop i) -> disj_b stmt_first (TComment :: stopset) = true ->
     (forall x, In x stopset -> In x (block_first ++ stops)) ->
     Chain rs stop more (body ++ more) ns.
   Proof.
-    intros H Hm Hstop Hd Hsub. induction H as [|ts n ts' ns Hn Hseq IH Hfo]; [apply Ch_nil|].
+    intros H Hm Hjm Hstop Hd Hsub. induction H as [|ts n ts' ns Hn Hseq IH Hfo]; [apply Ch_nil|].
     rewrite <- app_assoc. destruct (RS_head _ _ Hn) as [Hne Hhd].
     assert (hd_ty (ts' ++ more) = hd_or (hd_ty ts') h) as Hh by (rewrite hd_ty_app, Hm; reflexivity).
-    eapply Ch_cons; [destruct ts; [congruence|discriminate]| |apply Hrs; [exact Hn|rewrite Hh; exact Hfo]|exact IH].
+    eapply Ch_cons; [destruct ts; [congruence|discriminate]| |apply Hrs; [exact Hn|rewrite Hh; exact Hfo|eapply Seq_j; eassumption]|exact IH].
     apply Hstop. intros ty Hty Hin. rewrite hd_ty_app in Hty. destruct (hd_ty ts) as [ty'|] eqn:E.
     - inversion Hty; subst. apply (disj_b_spec _ _ _ Hd (Hhd _ eq_refl)). right. exact Hin.
     - destruct Hfo as [_ Hc]. specialize (Hc E). rewrite <- Hh, Hty in Hc. cbn [cmt_h] in Hc. apply Hc. apply Hsub. exact Hin.
@@ -413,6 +448,9 @@ Section StmtLevel.
     intros Hseq He Hstop Hp Hd Hc Hsub.
     assert (hd_ty (e :: rest) = Some (tty e)) as Hh.
     { apply hd_ty_cons. intro X. rewrite X in He. apply (mem_ty_false _ _ Hc He). }
+    assert (jfollow (e :: rest)) as Hje.
+    { apply jfollow_kw; [intro X; rewrite X in He; apply (mem_ty_false _ _ Hc He)|].
+      intro X. specialize (Hsub _ He). rewrite X in Hsub. simpl in Hsub. intuition discriminate. }
     eapply (until_chain rs stop (e :: rest)); [discriminate|exact Hp| |].
     - eapply Seq_chain; eauto.
     - pose proof (Seq_length _ _ _ Hseq). rewrite app_length. lia.
@@ -673,11 +711,11 @@ Section StmtLevel.
 
   (* ---------- every derivable statement is parsed into its tree ---------- *)
 
-  Theorem stmt_parses ts n more : Stmt ts n -> follow_ok ts (hd_ty more) ->
+  Theorem stmt_parses ts n more : Stmt ts n -> follow_ok ts (hd_ty more) -> jfollow more ->
     Parses (g_stmt (gram (S f))) (ts ++ more) more n.
   Proof.
-    intros H [Hfo Hcm]. pose proof (sfollow_efollow _ Hfo) as Hef.
-    destruct H as [tl nl op tr nr Hl Hhd Hop Hr|ts n Hd Hhd|ts n op Hd Hhd Hop|rt ts n Hrt He|t Ht|c Hc
+    intros H [Hfo Hcm] Hjm. pose proof (sfollow_efollow _ Hfo) as Hef.
+    destruct H as [tl nl op tr nr Hl Hhd Hjl Hop Hr|ts n Hd Hhd Hjl|ts n op Hd Hhd Hjl Hop|rt ts n Hrt He|t Ht|c Hc
                   |vt id col tts tn Hvt Hid Hcol Hty|wt cts cn body ns e Hwt Hc Hseq He|lt body ns e Hlt Hseq He
                   |rt body ns u cts cn Hrt Hseq Hu Hc
                   |ft vt eq lts ln top hts hn body ns e Hft Hvt Heq Hlo Htop Hhi Hseq He
@@ -688,6 +726,7 @@ Section StmtLevel.
                   |tk id col tts tn Htk Hid Hcol Hty
                   |ft ets en dt ut body ns e Hft Hen Hdt Hut Hseq He
                   |st ets en wts whens elts els e Hst Hen Hwh Hel He
+                  |ts n Hoql
                   |it cts cn k tail pre last e Hit Hc Htail].
     - (* assignment *)
       destruct Hhd as (t & r & -> & [Ht|[]]). rewrite <- app_assoc. cbn [app]. apply ident_stmt; [auto|].
@@ -1037,6 +1076,25 @@ Section StmtLevel.
       cbv beta. eapply Parses_bind.
       { apply (switch_else_parses elts els e more Hel He). }
       cbv beta iota. destruct els as [[et ens]|]; apply Parses_ret.
+    - (* oql select / fetch *)
+      assert (exists ot r, ts = ot :: r /\ tty ot = TOQL) as (ot & r & -> & Hot) by (destruct Hoql; eexists _, _; split; eauto).
+      rewrite stmt_is_shape.
+      assert (nostart (block_first ++ [TUses; TConst; TOSqrBracket; TType; TVar; TExit; TBreak; TContinue; TReturn]) ((ot :: r) ++ more)) as Hn
+        by (cbn [app]; eapply nostart_ty; [exact Hot|reflexivity]).
+      apply shape_simple; [apply blocks_fail; sub_nostart Hn|]. unfold simples, alt.
+      apply alt_go_skip; [cbn [app]; apply comment_fails; rewrite Hot; discriminate|]. intro b1.
+      apply alt_go_skip; [apply uses_fails; sub_nostart Hn|]. intro b2.
+      apply alt_go_skip; [apply const_fails; sub_nostart Hn|]. intro b3.
+      apply alt_go_skip; [apply typedecl_fails; sub_nostart Hn|]. intro b4.
+      apply alt_go_skip; [apply localvar_fails; sub_nostart Hn|]. intro b5.
+      apply alt_go_skip; [apply control_fails; sub_nostart Hn|]. intro b6.
+      apply alt_go_here.
+      apply (oql_parses pe pd pc (GExpr (S f)) (GDots (S f)) (GExprK (S f) 2)).
+      + intros. apply pe_parses; assumption.
+      + intros. apply pd_parses; assumption.
+      + intros ts' n' rest' H' Hf'. apply (gram_exprk_rt f 2); assumption.
+      + exact Hoql.
+      + split; [split; [apply sfollow_nostart; [reflexivity|exact Hfo]|exact Hjm]|apply sfollow_nostart; [reflexivity|exact Hfo]].
     - (* if *)
       cbn [app]. rewrite <- !app_assoc. rewrite stmt_is_shape.
       apply (shape_block []); [apply Forall_nil|].
@@ -1064,11 +1122,14 @@ Fixpoint GStmt (f : nat) : rel :=
 Lemma GStmt_head f ts n : GStmt f ts n -> ts <> [] /\ (forall ty, hd_ty ts = Some ty -> In ty stmt_first).
 Proof. destruct f as [|f]; [intros []|]. apply Stmt_head. Qed.
 
-Theorem gram_stmt_rt : forall f ts n more, GStmt f ts n -> follow_ok ts (hd_ty more) ->
+Lemma GStmt_j f ts n : GStmt f ts n -> jfollow ts.
+Proof. destruct f as [|f]; [intros []|]. apply Stmt_j. Qed.
+
+Theorem gram_stmt_rt : forall f ts n more, GStmt f ts n -> follow_ok ts (hd_ty more) -> jfollow more ->
   Parses (g_stmt (gram f)) (ts ++ more) more n.
 Proof.
-  induction f as [|f IH]; intros ts n more H Hf; [destruct H|].
-  apply (stmt_parses f (GStmt f) IH (GStmt_head f)); assumption.
+  induction f as [|f IH]; intros ts n more H Hf Hj; [destruct H|].
+  apply (stmt_parses f (GStmt f) IH (GStmt_head f) (GStmt_j f)); assumption.
 Qed.
 
 (* ---------- monotonicity ---------- *)
@@ -1108,6 +1169,7 @@ Proof.
   - apply S_switch; auto.
     + match goal with Hw : Whens _ _ _ |- _ => induction Hw; [apply Wh_nil|apply Wh_cons; auto; eapply Seq_mono; eauto] end.
     + match goal with Hs : SwitchElse _ _ _ |- _ => destruct Hs; [apply SE_none|apply SE_some; auto; eapply Seq_mono; eauto] end.
+  - apply S_oql. eapply OqlStmt_mono; [| | |eassumption]; [exact He|exact Hd|]. intros ts' n' X. unfold GExprK in *. eapply Exp_mono; [|exact X]. apply GR_mono. lia.
   - eapply S_if; auto. eapply IfTail_mono; eauto.
 Qed.
 
